@@ -977,5 +977,13 @@ static void run_program(void)
 
 static void run_special_mode(void)
 {
+    if (G.mode == 1) {
+        /* C20 (d): three initialisations: setting A, setting B, nothing set */
+        putenv("ABT_SET_AFFINITY=0");
+        env_probe("A", g_envA[0] ? g_envA : NULL);
+        env_probe("B", g_envB[0] ? g_envB : NULL);
+        env_probe("C", NULL);
+        return;
+    }
     generr("mode %d not built", G.mode);
 }
